@@ -5,6 +5,9 @@
 // converted with ONE shared types.Converter in path order (what Importer.ImportFrom does: imp.Converter.Package(pkg)),
 // and compared object by object: exported names, object kinds, constant values, printed types, method sets,
 // underlying structure.  Generic declarations (and anything that mentions a generic instance) are excluded.
+// Then every type REACHABLE from the objects of each converted package (reach.go) is walked: completeness and complete
+// method set of every interface, explicit methods of every named type; and a synthetic stream of two-package programs
+// where a type is first reached from a method signature (finding C30-3).
 // The same conversions are written as Coq cases for coq/C30/Model.v on a sample of types.
 package main
 
@@ -227,6 +230,7 @@ type H struct {
 	cw    *vh.Cases
 	ncase int
 	rng   *vh.Rng
+	late  lateState
 }
 
 func (h *H) note(what, x string) {
@@ -524,7 +528,8 @@ func main() {
 	rng := vh.NewRng(a.Seed)
 	rep := vh.NewReport(a, "every standard-library package of `go list std` that the gc importer loads offline (quick: fixed subset of 50 incl. net/http, reflect, go/ast, go/types, crypto/tls; thorough: all), "+
 		"exhaustive over the objects of its scope; a case is one object (non-trivial = exported); generic declarations and anything that mentions a generic instance are excluded and counted; "+
-		"plus hand-made packages type-checked from source (corpus) and a PRNG sample of type terms for the Coq model")
+		"for each converted package also a walk over every reachable type (fields, signatures, methods, embedded interfaces, any depth, other packages included) comparing each interface's completeness + complete method set (names, signatures, explicit/embedded counts, NewMethodSet, no panic) and each named type's explicit methods with go/types; "+
+		"plus hand-made packages type-checked from source (corpus), synthetic two-package programs (12 wrappers x 15 late types bounded-exhaustive + PRNG combinations; non-trivial = the late interface/named type is reached from a method signature only; only the importing package is converted, fresh Converter) and a PRNG sample of type terms for the Coq model")
 	wd := vh.NewWatchdog(rep, 300*time.Second)
 	h := &H{a: a, rep: rep, nfail: map[string]int{}, stats: map[string]int{}, rng: rng}
 	h.cw = vh.NewCases(a, "From Coq Require Import List NArith ZArith Bool.\nFrom Verif Require Import C30.Model.\nImport ListNotations.\nOpen Scope N_scope.", "case", "mismatches", 150)
@@ -560,6 +565,10 @@ func main() {
 		}
 		return os.Open(f)
 	})
+
+	// is the defect of finding C30-3 present in this tree? (reach.go: failLate)
+	h.late = lateState{defect: probeLate(), registered: registeredKeys()}
+	rep.Extra[lateDefectTag] = h.late.defect
 
 	// corpus first: hand-made packages, exact inputs of known findings
 	h.corpus()
@@ -604,6 +613,7 @@ func main() {
 			continue
 		}
 		h.comparePackage(gp, p)
+		h.compareReachable(gp, p, path)
 		rep.Dist("package")
 	}
 	rep.Extra["packages_loaded"] = loaded
@@ -629,10 +639,20 @@ func main() {
 		}
 		if gp, err := gimp.Import(path); err == nil {
 			h.comparePackage(gp, p)
+			h.compareReachable(gp, p, path)
 			h.stats["packages_through_importer_wrapper"]++
 		}
 	}
 	rep.Extra["wrapper_s"] = time.Since(t0).Seconds()
+
+	// synthetic two-package programs: a type first reached from a method signature (reach.go)
+	wd.Beat("synthetic")
+	h.synthetic()
+	rep.Extra["synthetic_s"] = time.Since(t0).Seconds()
+	if h.late.deferred == nil {
+		h.late.deferred = []string{}
+	}
+	rep.Extra["deferred_corpus_failures"] = h.late.deferred
 
 	h.cw.Close()
 	for k, n := range h.stats {
